@@ -52,6 +52,11 @@ class Predict(Contract):
         bs = A.int('batch_size', lo=1)
         return [model, X], dict(args=args, batch_size=bs, device='cpu')
 
+    def scopes(self, cfg):
+        # small scopes pin the batch size as well (the batching loop is then unrolled)
+        return [{'default': 3, 'batch_size': 2}, {'default': 2, 'batch_size': 1}, {'default': 3, 'batch_size': 4},
+                {'default': 2, 'X.d0': 5, 'arg0.d0': 5, 'arg1.d0': 5, 'arg2.d0': 5, 'batch_size': 2}, {'default': 2, 'X.d0': 4, 'batch_size': 3}]
+
     def call_cfg(self, a, fr):
         m = a.model
         rw = m.attrs['rowwise']
